@@ -492,6 +492,64 @@ def r19_9(chk, tier):
                                  'inside the try is reported as an ordinary result' % (fn['n'], h.get('l')), None, fn['q'])
     chk.require(n >= 10, 'R19.9: only %d catch-all handlers found' % n)
 
+ALLOCATING = ('basic_json', 'basic_string', 'vector', 'heap_string', 'byte_string', 'map<', 'unique_ptr', 'shared_ptr', 'optional', 'expression')
+
+def r19_10(chk, tier, units=('core', 'jmespath', 'jsonpath')):
+    """A non-throwing move takes the members of its source, it does not copy them."""
+    chk.rule('R19.10', 'non-throwing moves: in a function declared noexcept (or called from one with the same argument) that receives an rvalue '
+                       'reference `T&& other` to its own class, a member of `other` whose type owns heap storage is handed to a constructor or '
+                       'assignment as an rvalue (std::move / a cast to T&&); handed as it is, the copy constructor runs and an allocation '
+                       'failure inside a noexcept function ends in std::terminate', floor=5)
+    n = 0
+    for unit in units:
+        facts = F.load([unit], tier)
+        if unit not in chk.units: chk.units.append(unit)
+        seen = set()
+        for fn in facts.functions:
+            if fn.get('body') is None or fn.get('dep') or not fn.get('cls') or (fn['file'], fn['l']) in seen: continue
+            cls_short = A.strip_targs(fn['cls']).split('::')[-1]
+            rv = [p_ for p_ in fn['params'] if F.tname(fn, p_['t']).rstrip().endswith('&&')]
+            rv = [p_ for p_ in rv if cls_short in A.strip_targs(F.tname(fn, p_['t']))]
+            if not rv: continue
+            # the function itself is non-throwing, or it is a helper of the class called by a non-throwing member with the same argument
+            nothrow = bool(fn.get('nothrow'))
+            if not nothrow:
+                for f2 in facts.functions:
+                    if f2.get('cls') == fn['cls'] and f2.get('nothrow') and f2.get('body') is not None and any(facts.callee(f2, c) is fn for c in A.calls_in(f2['body'], no_lambda=True)):
+                        nothrow = True; break
+            if not nothrow: continue
+            seen.add((fn['file'], fn['l']))
+            pid = set(p_['id'] for p_ in rv)
+            def is_other_member(e):
+                e2 = e
+                while e2 is not None and e2.get('k') in ('ImplicitCastExpr', 'ParenExpr', 'MaterializeTemporaryExpr', 'CXXBindTemporaryExpr', 'ExprWithCleanups'): e2 = e2.get('sub')
+                if e2 is None or e2.get('k') != 'MemberExpr': return None
+                b = A.strip(e2.get('base'), casts=True)
+                while b is not None and b.get('k') == 'MemberExpr': b = A.strip(b.get('base'), casts=True)      # members of an anonymous union
+                return e2 if b is not None and b.get('k') == 'DeclRefExpr' and b.get('id') in pid else None
+            k = 0
+            for y in A.walk_no_lambda(fn['body']):
+                args = []
+                if y.get('k') in ('CXXConstructExpr', 'CXXTemporaryObjectExpr') and len(y.get('args') or []) >= 1: args = [y['args'][0]]
+                elif y.get('k') == 'CXXOperatorCallExpr' and y.get('oop') == '=' and len(y.get('args') or []) == 2: args = [y['args'][1]]
+                for a in args:
+                    moved = any(A.is_call(z) and A.callee_name(z) in ('move', 'forward') for z in A.walk(a)) or any(z.get('k') == 'CXXStaticCastExpr' for z in A.walk(a))
+                    m = is_other_member(a) if not moved else None
+                    mm = m
+                    if moved:
+                        mm = next((z for z in A.walk(a) if z.get('k') == 'MemberExpr' and z.get('n') and is_other_member(z) is not None), None)
+                    if mm is None: continue
+                    tn = F.tname(fn, mm.get('t'))
+                    if not any(w in tn for w in ALLOCATING): continue
+                    k += 1; n += 1
+                    chk.analysed(fn)
+                    site = U.site(fn, 'takes %s #%d' % (mm.get('n'), k))
+                    if moved: chk.ok('R19.10', site, {'member': mm.get('n'), 'type': tn[:40]} if k == 1 else None)
+                    else:
+                        chk.fail('R19.10', site, fn['file'], y.get('l'), '%s::%s (non-throwing, or called from a noexcept move with the same argument) builds or assigns from `%s.%s` (%s) without std::move: the member is '
+                                 'copied, which allocates, and a failure there cannot leave a noexcept function' % (cls_short, fn['n'], rv[0]['n'], mm.get('n'), tn[:40]), None, fn['q'])
+    chk.require(n >= 5, 'R19.10: only %d member hand-overs in non-throwing moves found' % n)
+
 def run(chk, tier, only_rule=None):
     chk.explanation = EXPLANATION
     chk.not_decided = NOT_DECIDED
@@ -503,6 +561,7 @@ def run(chk, tier, only_rule=None):
     r19_7(chk, facts)
     r19_8(chk, facts)
     r19_9(chk, tier)
+    r19_10(chk, tier)
     r19_6(chk, tier)
     r19_4(chk, tier)
     from . import c15
